@@ -319,6 +319,7 @@ func (evm *EVM) Call(ctx context.Context, caller ethvm.ContractRef, addr common.
 		if len(code) == 0 {
 			ret, err = nil, nil // gas is unchanged
 		} else {
+			preCallFailed := false
 			if evm.IsExecuteJP {
 				preCallResult := djpm.AspectInstance().PreContractCall(ctx, caller.Address(), addr, input, int64(blockNum), gas, value, &types.PreContractCallInput{
 					Call: &types.PreExecMessageInput{
@@ -336,21 +337,28 @@ func (evm *EVM) Call(ctx context.Context, caller ethvm.ContractRef, addr common.
 						preCallResult.Err = ErrOutOfGas
 					}
 
-					return preCallResult.Ret, preCallResult.Gas, preCallResult.Err
+					// Do not return from here: fall through to the common error
+					// handling below, so that the snapshot (including the value
+					// transfer) is reverted and the gas is forfeited like for any
+					// other failed frame.
+					ret, err = preCallResult.Ret, preCallResult.Err
+					preCallFailed = true
 				}
 
 				gas = preCallResult.Gas
 			}
 
-			addrCopy := addr
-			// If the account has no code, we can abort here
-			// The depth-check is already done, and precompiles handled above
-			contract := NewContract(caller, AccountRef(addrCopy), value, gas)
-			contract.SetCallCode(&addrCopy, evm.StateDB.GetCodeHash(addrCopy), code)
-			ret, err = evm.interpreter.Run(ctx, contract, input, false)
-			gas = contract.Gas
+			if !preCallFailed {
+				addrCopy := addr
+				// If the account has no code, we can abort here
+				// The depth-check is already done, and precompiles handled above
+				contract := NewContract(caller, AccountRef(addrCopy), value, gas)
+				contract.SetCallCode(&addrCopy, evm.StateDB.GetCodeHash(addrCopy), code)
+				ret, err = evm.interpreter.Run(ctx, contract, input, false)
+				gas = contract.Gas
+			}
 
-			if evm.IsExecuteJP {
+			if evm.IsExecuteJP && !preCallFailed {
 				var errorMsg string
 				if err != nil {
 					errorMsg = err.Error()
